@@ -545,6 +545,9 @@ UPGRADER:
 				}
 				start = i + 1
 				p.nextState(stateBodyChunkSizeLF)
+			case '\n':
+				// the line ends with CR LF, also after an extension.
+				return ErrCRExpected
 			default:
 				if !isHex(c) && p.chunkSize < 0 {
 					// only a chunk extension may follow the size.
